@@ -6,7 +6,7 @@ wt=$1; name=$2; prop=$3; shift 3
 head=$(git -C /repo rev-parse HEAD)
 if [ "$(git -C $wt rev-parse HEAD)" != "$head" ]; then
   # (no git stash: the stash is shared by all worktrees of a repository, concurrent lanes would pop each other's change)
-  git -C $wt diff > /tmp/move_$name.patch && git -C $wt checkout -q -- . && git -C $wt checkout -q --detach $head && git -C $wt apply /tmp/move_$name.patch || { echo "cannot move $wt to $head"; exit 3; }
+  git -C $wt diff > /tmp/move_$name.patch && git -C $wt checkout -q -- . && git -C $wt checkout -q --detach $head && (git -C $wt apply /tmp/move_$name.patch || (git -C $wt apply --3way /tmp/move_$name.patch && git -C $wt reset -q)) || { echo "cannot move $wt to $head"; exit 3; }
 fi
 rm -f $wt/gobeansdb/config_test.yaml.tmp
 cd /verif && python3 tools_seeded.py $name $wt $prop "$@" > /tmp/seed_$name.log 2>&1
